@@ -297,7 +297,8 @@ impl LanguageServer for Server {
     }
 
     fn did_change(&mut self, params: DidChangeTextDocumentParams) -> Self::NotifyResult {
-        if let Some(change) = params.content_changes.first() {
+        // full-text sync: the changes apply in order, so the last one is the document's text
+        if let Some(change) = params.content_changes.last() {
             self.set_file_content(&params.text_document.uri, &change.text);
             self.update_diagnostics();
         }
